@@ -95,7 +95,7 @@ func randOps(rnd *rand.Rand, cat *Catalog, steps int, profile string, honest boo
 			// Uploads as a well-behaved caller drives them: one target blob per session,
 			// pieces in order, resume at the reported size (or by asking), one commit.
 			if len(hs) == 0 || (len(hs) < 3 && rnd.Intn(3) == 0) {
-				if nextU >= len(cat.Uploads) {
+				if nextU >= len(cat.Uploads)-2 {
 					continue
 				}
 				u := cat.Uploads[nextU]
@@ -180,7 +180,8 @@ func randOps(rnd *rand.Rand, cat *Catalog, steps int, profile string, honest boo
 		case k < 34:
 			ops = append(ops, Op{Op: "MountBlob", From: repo(), R: repo(), C: pick(blobs)})
 		case k < 38:
-			if nextU >= len(cat.Uploads) {
+			if nextU >= len(cat.Uploads)-2 {
+				// the last two names are never allocated: they stand for sessions that do not exist
 				continue
 			}
 			u := cat.Uploads[nextU]
